@@ -84,7 +84,7 @@ def make_target(rng, edges, jd, tops, mode):
                     w = 3 if ka == kb else 1
                 else:
                     w = rng.randrange(1, 4)
-                if mode == "holes" and ka != kb and (ka, kb) not in present and rng.random() < 0.5:
+                if mode in ("holes", "manyholes") and ka != kb and (ka, kb) not in present and rng.random() < (0.5 if mode == "holes" else 0.85):
                     w = 0
                 rows.append({"a": list(ka), "b": list(kb), "w": w})
                 if ka != kb:
@@ -117,7 +117,10 @@ def execute(case):
         net.G.edges[a, b][NN.TOPOLOGY] = t
         net.G.edges[a, b][NN.MOTIF_IDS] = m
     ejks = {}
-    for t, rows in zip(case["tops"], case["target"]):
+    order = list(zip(case["tops"], case["target"]))
+    if case.get("ejk_order") == "reversed":      # the target dictionary need not be filled in the order of the name list
+        order = order[::-1]
+    for t, rows in order:
         ejks[t] = {tuple(r["a"]) + tuple(r["b"]): r["w"] / DEN for r in rows if r["w"] > 0 or case.get("keep_zero_keys")}
     tr = {"case": case, "V": list(range(n)), "jd": [list(j) for j in case["jd"]], "tops": list(case["tops"]),
           "target": case["target"], "g0": _graph_edges(net.G), "g0_after": [], "input_annotations_same": True,
@@ -136,6 +139,28 @@ def execute(case):
         tr["raised"] = "construction: %s: %s" % (type(ex).__name__, str(ex)[:80])
         tr["g0_after"] = _graph_edges(net.G)
         return tr
+    pre = case.get("pre")
+    if pre:
+        # history on ONE rewiring object: it first rewired another network (same vertex labels, other joint degrees),
+        # then was handed the judged network through the `network` setter
+        try:
+            other = gcmpy.Network()
+            other.G.add_nodes_from(range(len(pre["jd"])))
+            for v in range(len(pre["jd"])):
+                other.G.nodes[v][NN.JOINT_DEGREE] = tuple(pre["jd"][v])
+            for a, b, t, m in pre["edges"]:
+                other.G.add_edge(a, b)
+                other.G.edges[a, b][NN.TOPOLOGY] = t
+                other.G.edges[a, b][NN.MOTIF_IDS] = m
+            mcmc.network = other
+            mcmc.convergence_limit = pre.get("limit", 2)
+            with watchdog(1):
+                Oracle().run_seeded(pre.get("seed", 9), mcmc.rewire, grid=GRIDW)
+        except Exception:
+            pass
+        mcmc.network = net
+        if case.get("limit", -1) >= 0:
+            mcmc.convergence_limit = case["limit"]
     orc = Oracle()
     steps = []
     last = [tr["g0"]]
